@@ -54,12 +54,16 @@ def writers(f, owner, field):
 
 
 def updater_shape(b, f):
-    """multiset of (set operation, source of its argument)"""
+    """multiset of (set operation, source of its argument); operations made inside a closure handed to an iterator adaptor
+    (`deps.iter().for_each(|d| set.remove(d))`) count, their argument being an item of the adaptor's receiver"""
     out = []
-    for bi, t in b.calls():
+    for site, t, owner, adaptor in cfg.inlined_calls(f, b):
         fn = norm_fn(t.get("fn")) or ""
         if fn.endswith(("BTreeSet::remove", "BTreeSet::insert", "HashSet::remove", "HashSet::insert")):
-            pv = b.provenance(t["args"][1], through_calls=True)
+            if adaptor is None:
+                pv = b.provenance(t["args"][1], through_calls=True)
+            else:
+                pv = b.provenance(adaptor["args"][0], through_calls=True)        # the iterator the closure is applied to
             src = sorted(norm_fn(c).split("::")[-1] for c in pv.callees() if norm_fn(c).startswith("automerge::change::Change::"))
             out.append((fn.split("::")[-1], tuple(src)))
         elif re.search(r"(BTreeSet|HashSet)::(clear|retain|extend|append|split_off|drain|take|replace|pop_first|pop_last|extract_if)$", fn) or \
@@ -93,8 +97,8 @@ def run(ctx):
     ctx.ob("R13-shape", "update_heads|shape", s2 == want, uh.rec["sp"], "operations %s" % s2)
     # insert happens after the removal loop (the new hash must not be removed again): no path insert -> remove
     for name, b in (("update_deps", ud), ("update_heads", uh)):
-        ins = [bi for bi, t in b.calls() if (norm_fn(t.get("fn")) or "").endswith(("BTreeSet::insert", "HashSet::insert"))]
-        rem = [bi for bi, t in b.calls() if (norm_fn(t.get("fn")) or "").endswith(("BTreeSet::remove", "HashSet::remove"))]
+        ins = [site for site, t, _o, _a in cfg.inlined_calls(f, b) if (norm_fn(t.get("fn")) or "").endswith(("BTreeSet::insert", "HashSet::insert"))]
+        rem = [site for site, t, _o, _a in cfg.inlined_calls(f, b) if (norm_fn(t.get("fn")) or "").endswith(("BTreeSet::remove", "HashSet::remove"))]
         ok = bool(ins) and bool(rem) and not any(b.can_reach(i, r) for i in ins for r in rem) and all(any(rt == "return" for rt in [b.blocks[x]["t"]["k"] for x in b.reachable(i)]) for i in ins)
         # insert is unconditional: it post-dominates the entry (every path to return passes it)
         rets = b.returns()
